@@ -241,6 +241,8 @@ namespace {
         g_size[1] = ctx.params.set("rt.stack_medium", 0x20000 + 0x4000 * (int64_t) r.below(16));
         g_size[2] = ctx.params.set("rt.stack_large", 0x100000 + 0x20000 * (int64_t) r.below(16));
         g_size[3] = ctx.params.set("rt.stack_huge", 0x400000 + 0x100000 * (int64_t) r.below(8));
+        // the notation of the configured sizes: decimal, hexadecimal (what pika's own defaults use) or octal
+        ctx.params.set("rt.stack_notation", (int64_t) r.below(3));
         if (!ctx.program_from_replay)
         {
             Program p;
